@@ -114,15 +114,16 @@ def tlc_coverage(out):
     return cov
 
 
-def mc(module, cfg, workers=8, timeout=3600, env=None, extra=None, require_actions=True, heap="8g"):
-    """model-check a generative configuration; specification-level failure = tool error (never a VIOLATION)"""
-    r = tlc(module, cfg, env=env, workers=workers, extra=["-coverage", "1"] + (extra or []), timeout=timeout, heap=heap)
+def mc(module, cfg, workers=8, timeout=3600, env=None, extra=None, require_actions=True, heap="8g", coverage=True):
+    """model-check a generative configuration; specification-level failure = tool error (never a VIOLATION).
+    coverage=False: no per-action statistics (TLC's coverage collection costs up to 10x on specifications with large recursive operators)"""
+    r = tlc(module, cfg, env=env, workers=workers, extra=(["-coverage", "1"] if coverage else []) + (extra or []), timeout=timeout, heap=heap)
     if r["parse_error"] or r["states"] == 0 or "Model checking completed. No error has been found." not in r["out"]:
         log(r["out"][-3000:])
         raise ToolError(f"specification-level failure in {module} / {cfg} (see DESIGN.md 8: investigated, never suppressed)")
-    cov = tlc_coverage(r["out"])
+    cov = tlc_coverage(r["out"]) if coverage else {}
     r["cov"] = cov
-    if require_actions:
+    if require_actions and coverage:
         zero = [a for a, (d, t) in cov.items() if t == 0 and not a.startswith("Init")]
         if zero:
             raise ToolError(f"vacuity guard: actions never taken in {module}/{cfg}: {zero}")
